@@ -46,8 +46,53 @@ void walkCn(Expr &e, const std::function<void(Expr &)> &fn)
     }
 }
 
+// units names of the cn elements of a reset's test and reset values (math strings)
+void resetCnUnits(const ResetSpec &r, std::vector<std::string> &out)
+{
+    for (const std::string *m : {&r.testValue, &r.resetValue}) {
+        for (size_t p = m->find(":units=\""); p != std::string::npos; p = m->find(":units=\"", p + 1)) {
+            size_t e = m->find('"', p + 8);
+            out.push_back(m->substr(p + 8, e - (p + 8)));
+        }
+    }
+}
+
+bool renameResetCnUnits(ResetSpec &r, const std::map<std::string, std::string> &nm)
+{
+    bool changed = false;
+    for (std::string *m : {&r.testValue, &r.resetValue}) {
+        std::string o;
+        size_t from = 0;
+        for (size_t p = m->find(":units=\""); p != std::string::npos; p = m->find(":units=\"", p + 1)) {
+            size_t e = m->find('"', p + 8);
+            auto it = nm.find(m->substr(p + 8, e - (p + 8)));
+            o += m->substr(from, p + 8 - from);
+            o += it != nm.end() ? it->second : m->substr(p + 8, e - (p + 8));
+            changed = changed || (it != nm.end() && it->second != it->first);
+            from = e;
+        }
+        o += m->substr(from);
+        *m = o;
+    }
+    return changed;
+}
+
+std::string resetValueMath(const std::string &units, const std::string &number)
+{
+    return "<math xmlns=\"http://www.w3.org/1998/Math/MathML\" xmlns:cellml=\"http://www.cellml.org/cellml/2.0#\"><cn cellml:units=\"" + units + "\">" + number + "</cn></math>";
+}
+
 void collectCnUnits(const CompSpec &c, std::set<std::string> &out)
 {
+    for (const auto &r : c.resets) {
+        std::vector<std::string> names;
+        resetCnUnits(r, names);
+        for (const auto &n : names) {
+            if (isUserUnits(n)) {
+                out.insert(n);
+            }
+        }
+    }
     for (const auto &eq : c.equations) {
         for (const Expr *side : {&eq.first, &eq.second}) {
             Expr copy = *side;
@@ -296,6 +341,11 @@ void enrichUnits(GtModel &g, Src &src, unsigned aliasMode, bool twoLevel, unsign
         case 1:
             if (!userNames.empty()) {
                 c.ref = src.pick(userNames);
+                for (const auto &n : userNames) {
+                    if (n.compare(0, 2, "v_") == 0 && src.flip(60)) {
+                        c.ref = n; // the second of two names for one definition: de-duplicated away when both are required
+                    }
+                }
                 c.exponent = 2.0;
                 u.units.push_back(c);
                 break;
@@ -722,6 +772,9 @@ struct Splitter
             UnitsRed ru = fu.reduce(m, u);
             std::string n = u;
             unsigned k = static_cast<unsigned>(src.below(10));
+            if (m != 0 && isDep.count(u) != 0 && allowDepRename && src.flip(60)) {
+                k = 5; // a dependency that leaves a library for a further model takes the name of other units of that library
+            }
             if (k >= 5 && isDep.count(u) != 0 && !allowDepRename) {
                 k = 0;
                 ++f.counters["shape-not-taken:C06.valid|units-child-reference"];
@@ -846,8 +899,13 @@ struct Splitter
     static bool sameShape(const ModelSpec &s, int a, int b)
     {
         const CompSpec &x = s.comps[static_cast<size_t>(a)], &y = s.comps[static_cast<size_t>(b)];
-        if (x.vars.size() != y.vars.size() || x.math != y.math || x.import != y.import || x.importRef != y.importRef) {
+        if (x.vars.size() != y.vars.size() || x.math != y.math || x.import != y.import || x.importRef != y.importRef || x.resets.size() != y.resets.size()) {
             return false;
+        }
+        for (size_t i = 0; i < x.resets.size(); ++i) {
+            if (x.resets[i].var != y.resets[i].var || x.resets[i].testValue != y.resets[i].testValue || x.resets[i].resetValue != y.resets[i].resetValue) {
+                return false;
+            }
         }
         for (size_t i = 0; i < x.vars.size(); ++i) {
             if (x.vars[i].name != y.vars[i].name || x.vars[i].units != y.vars[i].units || x.vars[i].initial != y.vars[i].initial) {
@@ -1104,6 +1162,22 @@ struct Splitter
             taken.insert(n);
             libNames.push_back(n);
         }
+        if (E0.size() >= 3 && src.flip(60)) {
+            // two components of the imported hierarchy called n and n_1, n also being a name of the importing model
+            size_t a = 1 + src.below(E0.size() - 1), b = 1 + src.below(E0.size() - 1);
+            if (a != b) {
+                std::string n = stayingNames[src.below(stayingNames.size())];
+                taken.erase(libNames[a]);
+                taken.erase(libNames[b]);
+                if (findComp(lib.spec, n) < 0 && findComp(lib.spec, n + "_1") < 0 && taken.count(n) == 0 && taken.count(n + "_1") == 0) {
+                    libNames[a] = n;
+                    libNames[b] = n + "_1";
+                    f.classes.insert("plan:component-name-clash-next-to-its-suffixed-form");
+                }
+                taken.insert(libNames[a]);
+                taken.insert(libNames[b]);
+            }
+        }
         // library elements
         std::map<int, int> libIdx;
         for (size_t p = 0; p < E0.size(); ++p) {
@@ -1131,6 +1205,9 @@ struct Splitter
             }
             if (changed) {
                 rebuildMath(cs);
+            }
+            for (auto &r : cs.resets) {
+                renameResetCnUnits(r, nm);
             }
             if (cs.import >= 0) {
                 int t = f.models[static_cast<size_t>(m)].importTarget[static_cast<size_t>(cs.import)];
@@ -1506,8 +1583,30 @@ struct Splitter
                     f.classes.insert("library-has-unrelated-component");
                 }
             }
-            if (src.flip(40) && !f.models[0].spec.units.empty()) {
+            if (src.flip(50) && !f.models[0].spec.units.empty()) {
                 std::string n = f.models[0].spec.units[src.below(f.models[0].spec.units.size())].name;
+                {
+                    // preferably the importer's name of units that this library has under another name, or the de-clashed
+                    // form (<name>_1) of a units name of this library
+                    ForestUnits fu(f.models);
+                    std::vector<std::string> aimed;
+                    for (const auto &mu : f.models[0].spec.units) {
+                        for (const auto &lu : cm.spec.units) {
+                            if (lu.name != mu.name && findUnits(cm.spec, mu.name) < 0 && redKey(fu.reduce(0, mu.name)) == redKey(fu.reduce(static_cast<int>(mi), lu.name))) {
+                                aimed.push_back(mu.name);
+                            }
+                        }
+                    }
+                    for (const auto &lu : cm.spec.units) {
+                        if (lu.import < 0 && findUnits(cm.spec, lu.name + "_1") < 0) {
+                            aimed.push_back(lu.name + "_1");
+                        }
+                    }
+                    if (!aimed.empty() && src.flip(70)) {
+                        n = aimed[src.below(aimed.size())];
+                        f.classes.insert("library-has-unrelated-units-with-an-aimed-name");
+                    }
+                }
                 if (findUnits(cm.spec, n) < 0) {
                     UnitsSpec u;
                     u.name = n;
@@ -1594,6 +1693,7 @@ C06Forest c06GenForest(Src &src, const C06Options &opt)
     const bool allowKept = src.flip(opt.keptChildrenPct);
     const bool allowKeptImportedUnits = allowKept && src.flip(50);
     const bool allowNameCapture = src.flip(30);
+    const bool withResets = src.flip(45);
     const bool allowDepRename = src.flip(opt.chainGapPct);
     const bool allowAliasClash = src.flip(opt.chainGapPct);
     const bool allowDepImport = src.flip(opt.chainGapPct);
@@ -1608,6 +1708,49 @@ C06Forest c06GenForest(Src &src, const C06Options &opt)
     go.exprDepth = 2;
     f.ref = genGroundTruthModel(src, go);
     enrichUnits(f.ref, src, aliasMode, twoLevel, nCnUnits, f);
+    if (withResets) {
+        // Resets on variables of classes homed in the component (a copy of the subtree then resets its own class: orders stay
+        // unique per connected variable set). Their test and reset values are cn elements in user-defined units: units used by
+        // nothing else (rst<k>), or units the model has anyway. Generated code ignores resets: the truth is unaffected.
+        ModelSpec &rs = f.ref.spec;
+        std::vector<std::string> userUnits;
+        for (const auto &u : rs.units) {
+            userUnits.push_back(u.name);
+        }
+        unsigned made = 0;
+        std::set<size_t> compsDone;
+        for (size_t ci = 0; ci < f.ref.classes.size() && made < 2; ++ci) {
+            const GtClass &cl = f.ref.classes[ci];
+            size_t comp = static_cast<size_t>(cl.inst[0].comp);
+            if (cl.role == GtRole::VOI || compsDone.count(comp) != 0 || !src.flip(cl.role == GtRole::STATE ? 70 : 30)) {
+                continue;
+            }
+            compsDone.insert(comp);
+            std::string un;
+            if (userUnits.empty() || src.flip(60)) {
+                UnitsSpec u;
+                u.name = "rst" + std::to_string(made);
+                UnitSpec c;
+                c.ref = made == 0 ? "second" : "litre";
+                c.prefix = made == 0 ? "milli" : "centi";
+                u.units.push_back(c);
+                rs.units.push_back(u);
+                un = u.name;
+                f.classes.insert("ref:units-used-by-a-reset-only");
+            } else {
+                un = userUnits[src.below(userUnits.size())];
+            }
+            ResetSpec r;
+            r.var = r.testVar = cl.inst[0].var;
+            r.hasOrder = true;
+            r.order = 1 + static_cast<int>(made);
+            r.testValue = resetValueMath(un, "1000");
+            r.resetValue = resetValueMath(src.flip(50) ? un : "dimensionless", "0.5");
+            rs.comps[comp].resets.push_back(r);
+            ++made;
+            f.classes.insert("ref:reset-with-cn-units");
+        }
+    }
     f.canon.resize(f.ref.spec.comps.size());
     for (size_t i = 0; i < f.canon.size(); ++i) {
         f.canon[i] = static_cast<int>(i);
@@ -1865,6 +2008,17 @@ C06Forest c06GenForest(Src &src, const C06Options &opt)
     }
     if (f.unitsDependencyKnownElsewhere) {
         f.classes.insert("units-dependency-defined-elsewhere-under-another-name");
+    }
+    for (const auto &cm : f.models) {
+        for (const auto &u : cm.spec.units) {
+            // imported under a name that other units of the model it comes from have
+            if (u.import >= 0 && u.name != u.importRef && findUnits(f.models[static_cast<size_t>(cm.importTarget[static_cast<size_t>(u.import)])].spec, u.name) >= 0) {
+                f.importedUnitsNamedLikeLibraryUnits = true;
+            }
+        }
+    }
+    if (f.importedUnitsNamedLikeLibraryUnits) {
+        f.classes.insert("imported-units-named-like-other-units-of-their-library");
     }
     for (size_t a = 0; a < f.models.size(); ++a) {
         for (const auto &u : f.models[a].spec.units) {
@@ -2193,6 +2347,32 @@ std::string c06CompareUnits(const ModelPtr &flat, const C06Forest &f, const C06M
             }
             if (std::fabs(a.log10scale - b.log10scale) > 1e-9) {
                 return "scale\nflat variable " + where + " has units '" + un + "' = " + redKey(a) + " but the reference has '" + rv.units + "' = " + redKey(b);
+            }
+        }
+        // the cn elements of the resets' test and reset values
+        if (m.comp[r]->resetCount() != rc.resets.size()) {
+            return "reset-count\nflat component " + m.comp[r]->name() + " has " + std::to_string(m.comp[r]->resetCount()) + " resets, the reference " + std::to_string(rc.resets.size());
+        }
+        for (size_t ri = 0; ri < rc.resets.size(); ++ri) {
+            std::vector<std::string> want, got;
+            resetCnUnits(rc.resets[ri], want);
+            ResetSpec flatReset;
+            flatReset.testValue = m.comp[r]->reset(ri)->testValue();
+            flatReset.resetValue = m.comp[r]->reset(ri)->resetValue();
+            resetCnUnits(flatReset, got);
+            std::string where = "reset " + std::to_string(ri) + " of flat component " + m.comp[r]->name();
+            if (want.size() != got.size()) {
+                return "reset-cn-count\n" + where + " has " + std::to_string(got.size()) + " cn elements with units, the reference " + std::to_string(want.size());
+            }
+            for (size_t k = 0; k < want.size(); ++k) {
+                if (!isStandardUnit(got[k]) && flat->units(got[k]) == nullptr) {
+                    return "reset-cn-dangling\n" + where + " has a cn element in units '" + got[k] + "' which the flat model does not define (reference: '" + want[k] + "')";
+                }
+                UnitsRed a = reduceUnits(got[k], lk);
+                UnitsRed b = reduceUnits(f.ref.spec, want[k]);
+                if (!a.defined || a.base != b.base || std::fabs(a.log10scale - b.log10scale) > 1e-9) {
+                    return "reset-cn-units\n" + where + " has a cn element in units '" + got[k] + "' = " + redKey(a) + " but the reference has '" + want[k] + "' = " + redKey(b);
+                }
             }
         }
     }
